@@ -60,6 +60,23 @@ class StlPastifier(LtlPastifier, StlAstVisitor):
             node.begin_unit = ''
             node.end_unit = ''
 
+    def started(self, delay):
+        # -inf during the first `delay` updates (while a delayed operand has not reached
+        # time 0 yet), +inf afterwards
+        return TimedOnce(Constant(float('inf')), Interval(delay, delay))
+
+    def ignore_warmup_low(self, node, delay):
+        # the operand of a past operator counts as -inf before time 0
+        if delay > 0:
+            node = Conjunction(node, self.started(delay))
+        return node
+
+    def ignore_warmup_high(self, node, delay):
+        # the operand of a past operator counts as +inf before time 0
+        if delay > 0:
+            node = Disjunction(node, Neg(self.started(delay)))
+        return node
+
     def pastify(self, ast):
         self.ast = ast
         for spec in ast.specs:
@@ -129,6 +146,7 @@ class StlPastifier(LtlPastifier, StlAstVisitor):
         remaining_horizon = args[0]
         horizon = remaining_horizon - node_horizon
         child_node = self.visit(node.children[0], node_horizon)
+        child_node = self.ignore_warmup_low(child_node, node_horizon)
         if horizon > 0:
             node = TimedOnce(child_node, Interval(node.begin + horizon, node.end + horizon))
         else:
@@ -140,6 +158,7 @@ class StlPastifier(LtlPastifier, StlAstVisitor):
         remaining_horizon = args[0]
         horizon = remaining_horizon - node_horizon
         child_node = self.visit(node.children[0], node_horizon)
+        child_node = self.ignore_warmup_high(child_node, node_horizon)
         node = TimedHistorically(child_node, Interval(node.begin, node.end))
         if horizon > 0:
             node = TimedOnce(node, Interval(horizon, horizon))
@@ -150,7 +169,9 @@ class StlPastifier(LtlPastifier, StlAstVisitor):
         remaining_horizon = args[0]
         horizon = remaining_horizon - node_horizon
         child_node_1 = self.visit(node.children[0], node_horizon)
+        child_node_1 = self.ignore_warmup_high(child_node_1, node_horizon)
         child_node_2 = self.visit(node.children[1], node_horizon)
+        child_node_2 = self.ignore_warmup_low(child_node_2, node_horizon)
         node = TimedSince(child_node_1, child_node_2, Interval(node.begin, node.end))
         if horizon > 0:
             node = TimedOnce(node, Interval(horizon, horizon))
@@ -315,6 +336,7 @@ class StlPastifier(LtlPastifier, StlAstVisitor):
         remaining_horizon = args[0]
         horizon = remaining_horizon - node_horizon
         child_node = self.visit(node.children[0], node_horizon)
+        child_node = self.ignore_warmup_low(child_node, node_horizon)
         node = Rise(child_node)
         if horizon > 0:
             node = TimedOnce(node, Interval(horizon, horizon))
@@ -325,6 +347,7 @@ class StlPastifier(LtlPastifier, StlAstVisitor):
         remaining_horizon = args[0]
         horizon = remaining_horizon - node_horizon
         child_node = self.visit(node.children[0], node_horizon)
+        child_node = self.ignore_warmup_high(child_node, node_horizon)
         node = Fall(child_node)
         if horizon > 0:
             node = TimedOnce(node, Interval(horizon, horizon))
@@ -409,6 +432,7 @@ class StlPastifier(LtlPastifier, StlAstVisitor):
         remaining_horizon = args[0]
         horizon = remaining_horizon - node_horizon
         child_node = self.visit(node.children[0], node_horizon)
+        child_node = self.ignore_warmup_low(child_node, node_horizon)
         node = Once(child_node)
         if horizon > 0:
             node = TimedOnce(node, Interval(horizon, horizon))
@@ -419,6 +443,7 @@ class StlPastifier(LtlPastifier, StlAstVisitor):
         remaining_horizon = args[0]
         horizon = remaining_horizon - node_horizon
         child_node = self.visit(node.children[0], node_horizon)
+        child_node = self.ignore_warmup_high(child_node, node_horizon)
         node = Previous(child_node)
         if horizon > 0:
             node = TimedOnce(node, Interval(horizon, horizon))
@@ -429,6 +454,7 @@ class StlPastifier(LtlPastifier, StlAstVisitor):
         remaining_horizon = args[0]
         horizon = remaining_horizon - node_horizon
         child_node = self.visit(node.children[0], node_horizon)
+        child_node = self.ignore_warmup_low(child_node, node_horizon)
         node = StrongPrevious(child_node)
         if horizon > 0:
             node = TimedOnce(node, Interval(horizon, horizon))
@@ -449,6 +475,7 @@ class StlPastifier(LtlPastifier, StlAstVisitor):
         remaining_horizon = args[0]
         horizon = remaining_horizon - node_horizon
         child_node = self.visit(node.children[0], node_horizon)
+        child_node = self.ignore_warmup_high(child_node, node_horizon)
         node = Historically(child_node)
         if horizon > 0:
             node = TimedOnce(node, Interval(horizon, horizon))
@@ -459,7 +486,9 @@ class StlPastifier(LtlPastifier, StlAstVisitor):
         remaining_horizon = args[0]
         horizon = remaining_horizon - node_horizon
         child_node_1 = self.visit(node.children[0], node_horizon)
+        child_node_1 = self.ignore_warmup_high(child_node_1, node_horizon)
         child_node_2 = self.visit(node.children[1], node_horizon)
+        child_node_2 = self.ignore_warmup_low(child_node_2, node_horizon)
         node = Since(child_node_1, child_node_2)
         if horizon > 0:
             node = TimedOnce(node, Interval(horizon, horizon))
